@@ -444,6 +444,9 @@ class Run:
         mp = os.path.join(self.dir, "meta.json")
         if os.path.exists(mp):
             meta = json.load(open(mp))
+        if "templates_executed" in meta:
+            self.coverage["templates_executed_by_name"] = len(meta["templates_executed"])
+            self.coverage["templates_never_executed_by_name"] = meta.get("templates_never_executed_by_name")
         return cases, impl, model, meta
 
     def violation(self, replay, case_key, note=""):
